@@ -355,26 +355,26 @@ func shrinkTrie(c *TrieCase, bad func(*TrieCase) bool) *TrieCase {
 // ================================================================ state stream
 
 type Op struct {
-	K string `json:"k"`           // bal eng mas code sto raw del cp rev commit open obs
-	A int    `json:"a,omitempty"` // address index
-	S int    `json:"s,omitempty"` // storage key index
-	V string `json:"v,omitempty"` // hex payload (number / bytes)
-	T uint64 `json:"t,omitempty"` // block time (eng)
-	N int    `json:"n,omitempty"` // rev target / open index
-	Major uint32 `json:"major,omitempty"`
-	Minor uint32 `json:"minor,omitempty"`
-	Reopen bool  `json:"reopen,omitempty"`
+	K      string `json:"k"`           // bal eng mas code sto raw del cp rev commit open obs
+	A      int    `json:"a,omitempty"` // address index
+	S      int    `json:"s,omitempty"` // storage key index
+	V      string `json:"v,omitempty"` // hex payload (number / bytes)
+	T      uint64 `json:"t,omitempty"` // block time (eng)
+	N      int    `json:"n,omitempty"` // rev target / open index
+	Major  uint32 `json:"major,omitempty"`
+	Minor  uint32 `json:"minor,omitempty"`
+	Reopen bool   `json:"reopen,omitempty"`
 }
 
 type Case struct {
-	Addrs  []string `json:"addrs"` // 20-byte hex
-	Keys   []string `json:"keys"`  // 32-byte hex
-	Pairs  [][2]int `json:"pairs"`
-	QBT    uint64   `json:"qbt"`
-	QStop  uint64   `json:"qstop"`
-	Cached bool     `json:"cached"`
-	CacheTTL uint16 `json:"cache_ttl"`
-	Ops    []Op     `json:"ops"`
+	Addrs    []string `json:"addrs"` // 20-byte hex
+	Keys     []string `json:"keys"`  // 32-byte hex
+	Pairs    [][2]int `json:"pairs"`
+	QBT      uint64   `json:"qbt"`
+	QStop    uint64   `json:"qstop"`
+	Cached   bool     `json:"cached"`
+	CacheTTL uint16   `json:"cache_ttl"`
+	Ops      []Op     `json:"ops"`
 }
 
 func (c *Case) addr(i int) thor.Address { return thor.BytesToAddress(unhex(c.Addrs[i])) }
@@ -389,11 +389,11 @@ type commitObs struct {
 	err      string
 }
 type acctObs struct {
-	key      string // nibble path with t
-	acc      state.Account
-	meta     *state.AccountMetadata
-	sLeaves  []triesim.Leaf
-	sPaths   []string
+	key     string // nibble path with t
+	acc     state.Account
+	meta    *state.AccountMetadata
+	sLeaves []triesim.Leaf
+	sPaths  []string
 }
 
 type stepObs struct {
@@ -574,13 +574,13 @@ func (co *commitObs) property() string {
 
 // plain-map shadow of the operations (the specification side of "reading returns what a plain map would")
 type shadowAcc struct {
-	bal, eng   string
-	bt         uint64
-	balZero    bool
-	engZero    bool
-	master     string
-	code       string
-	storage    map[int]string
+	bal, eng string
+	bt       uint64
+	balZero  bool
+	engZero  bool
+	master   string
+	code     string
+	storage  map[int]string
 }
 type shadow map[int]*shadowAcc
 
